@@ -47,6 +47,7 @@ def chain_compiler_rules(chk, repo, prefix):
     C05.rule_R5(chk, repo, rid=f'{prefix}.d')
     C05.rule_R6(chk, repo, rid=f'{prefix}.e')
     C05.rule_R7(chk, repo, rid=f'{prefix}.f')
+    C05.rule_R4(chk, repo, rid=f'{prefix}.g')
 
 
 def ownership_rules(chk, repo, rid, text=None):
@@ -269,4 +270,125 @@ def graph_table_rules(chk, repo, rid, classes=('OpGraph', 'AutOp')):
             chk.ob(rid, where(repo, mi, mi.node), f'{cname}.{meth} stores the object under its own id', ok, det,
                    key=f'{rid}|{cname}|{meth}')
             n += 1
+        # ---- beliefs about emptiness agree: if one `max(X.<table>.keys(), default=..)` of the class allows for an empty
+        # table, every maximum over that table must (a graph under construction has terminal nodes but possibly no edge)
+        for table in ('nodes', 'edges'):
+            sites = []
+            for mi in ci.methods.values():
+                for c in ast.walk(mi.node):
+                    if isinstance(c, ast.Call) and isinstance(c.func, ast.Name) and c.func.id in ('max', 'min') and len(c.args) == 1 and \
+                            isinstance(c.args[0], ast.Call) and isinstance(c.args[0].func, ast.Attribute) and \
+                            c.args[0].func.attr == 'keys' and norm(c.args[0].func.value).endswith('.' + table):
+                        sites.append((mi, c, any(k.arg == 'default' for k in c.keywords)))
+            if any(d for _, _, d in sites):
+                bad = [(mi, c) for mi, c, d in sites if not d]
+                chk.ob(rid, where(repo, bad[0][0], bad[0][1]) if bad else where(repo, ci.methods['add_connect_edge'], ci.methods['add_connect_edge'].node),
+                       f'{cname}: every maximum over the keys of the {table[:-1]} table allows for an empty table (as '
+                       f'{sum(1 for _, _, d in sites if d)} of the {len(sites)} sites do)', not bad,
+                       '; '.join(f'{mi.name} line {c.lineno}: `{norm(c)}`' for mi, c in bad[:3]), key=f'{rid}|{cname}|empty-{table}')
+                n += 1
+    return n
+
+
+def container_rules(chk, repo, rid, quals):
+    """constructors that link to the objects handed to them convert the sequence that holds them (clause of C19.CTOR
+    re-evaluated): the caller's list never becomes the object's own list"""
+    from ..effects import Engine
+    from . import C19
+    chk.rule(rid, 'support: a node / graph / automaton constructor links to the objects handed to it but converts the sequence that holds '
+                  'them - the caller\'s list is never the object\'s own list, so appending a child or reusing the list afterwards '
+                  'cannot change another object (effects engine, clause of C19.CTOR re-evaluated)')
+    eng = Engine(repo)
+    n = 0
+    for q in quals:
+        fi = repo.func(q)
+        res, pw = C19.analyse_entry(eng, fi)
+        sh = [d for d in C19.shared_with_params(eng, fi, res['args']['self'], exclude=('self',)) if d in C19.OWNERSHIP_CONTAINERS[q]]
+        chk.ob(rid, where(repo, fi, fi.node), f'{q}: the sequence argument is converted, not kept', not sh,
+               "the new object holds the caller's " + ', '.join(sh) if sh else '', key=f'{rid}|{q}|container')
+        n += 1
+    return n
+
+
+_STATE_CALIBRATION = '''
+_cache = {}
+def f(x, acc=[]):
+    acc.append(x)
+    _cache[x] = acc
+    return acc
+@functools.lru_cache(maxsize=8)
+def g(n):
+    return [0] * n
+def ok(x, acc=None, flag=()):
+    acc = [] if acc is None else acc
+    return acc
+'''
+
+
+def state_findings(tree):
+    """(node, function name, text) for every way a module keeps state between calls: a mutable default argument that
+    is mutated / stored / returned, a memoising decorator, a store into a module-level mutable container"""
+    import ast
+    out = []
+    globs = set()
+    for s in tree.body:
+        if isinstance(s, ast.Assign) and len(s.targets) == 1 and isinstance(s.targets[0], ast.Name) and \
+                (isinstance(s.value, (ast.Dict, ast.List, ast.Set)) or
+                 (isinstance(s.value, ast.Call) and norm(s.value.func) in ('dict', 'list', 'set', 'collections.defaultdict',
+                                                                            'defaultdict', 'collections.OrderedDict'))):
+            if not s.targets[0].id.startswith('__'):
+                globs.add(s.targets[0].id)
+    MUT = {'append', 'extend', 'insert', 'update', 'add', 'setdefault', 'pop', 'clear', 'remove', 'popitem', 'sort', 'reverse'}
+    for fn in ast.walk(tree):
+        if not isinstance(fn, (ast.FunctionDef, ast.AsyncFunctionDef)):
+            continue
+        for d in fn.decorator_list:
+            t = norm(d)
+            if 'cache' in t.lower() or 'memo' in t.lower():
+                out.append((fn, fn.name, f'decorator `{t}`: every caller with equal arguments receives the same object'))
+        a = fn.args
+        params = [x.arg for x in a.args]
+        nd = len(a.defaults)
+        for p, d in zip(params[len(params) - nd:], a.defaults):
+            if isinstance(d, (ast.List, ast.Dict, ast.Set)) or (isinstance(d, ast.Call) and norm(d.func) in ('list', 'dict', 'set')):
+                rebound = any(isinstance(n, ast.Name) and n.id == p and isinstance(n.ctx, ast.Store) for n in ast.walk(fn))
+                used = [n for n in ast.walk(fn) if isinstance(n, ast.Name) and n.id == p and isinstance(n.ctx, ast.Load)]
+                if used and not rebound:
+                    out.append((fn, fn.name, f'mutable default `{p}={norm(d)}` is used without being replaced: one object for all calls'))
+        local = {n.id for n in ast.walk(fn) if isinstance(n, ast.Name) and isinstance(n.ctx, ast.Store)} | set(params)
+        for n in ast.walk(fn):
+            tgt = None
+            if isinstance(n, (ast.Assign, ast.AugAssign)):
+                for t in (n.targets if isinstance(n, ast.Assign) else [n.target]):
+                    if isinstance(t, ast.Subscript) and isinstance(t.value, ast.Name):
+                        tgt = t.value.id
+            elif isinstance(n, ast.Call) and isinstance(n.func, ast.Attribute) and n.func.attr in MUT and isinstance(n.func.value, ast.Name):
+                tgt = n.func.value.id
+            if tgt in globs and tgt not in local:
+                out.append((n, fn.name, f'`{norm(n)[:60]}` stores into the module-level container `{tgt}`'))
+    return out
+
+
+def state_rules(chk, repo, rid, modules=None, only=None):
+    """nothing survives a call: no filled mutable default, no memoising decorator, no module-level cache"""
+    import ast
+    chk.rule(rid, 'no state survives a call: no function keeps a mutable default argument in use, is wrapped in a memoising decorator, '
+                  'or stores into a module-level container - the objects this library returns are mutable and modified in place by '
+                  'their callers (orthonormalize, zero_qnumbers, add_child, rename_node_id ...), so a second call must not hand out '
+                  'or depend on what the first one built')
+    cal = state_findings(ast.parse(_STATE_CALIBRATION))
+    if sorted({f for _, f, _ in cal}) != ['f', 'g'] or len(cal) != 3:
+        raise AnalysisError('state rule fails its built-in calibration example')
+    n = 0
+    for mname, mod in sorted(repo.modules.items()):
+        if modules is not None and mname not in modules:
+            continue
+        fnd = state_findings(mod.tree)
+        if only is not None:
+            names = {q.split('.')[-1] for q in only if q.split('.')[0] == mname}
+            fnd = [x for x in fnd if x[1] in names]
+        det = '; '.join(f'{f} (line {getattr(nd, "lineno", "?")}): {t}' for nd, f, t in fnd[:3])
+        chk.ob(rid, f'pytenet/{mname}.py:{fnd[0][1] if fnd else "<module>"}:{getattr(fnd[0][0], "lineno", 1) if fnd else 1}',
+               f'{mname}.py: no function keeps state between calls', not fnd, det, key=f'{rid}|{mname}')
+        n += 1
     return n
